@@ -520,4 +520,91 @@ theorem float_set_footprint {F : Type} [FloatOps F] (port : Port) (e : Endiannes
     injection h with h1 h2; subst h1; subst h2
     right; exact ⟨by simp, rfl, rfl⟩
 
+/-! ## 6. Footprint of every `value()` and of the string / float node round trips -/
+
+/-- **footprint (every `value()`)**: `IntReg`, `FloatReg`, `StringReg` (and `MaskedIntReg`)
+`value()` are all `with_cache_or_read` with a decoder `f`.  Whenever such a call succeeds it
+performed exactly one device access — a read of `[address, address+length)` — the result
+is the decoder applied to exactly those bytes, and memory is unchanged. -/
+theorem value_footprint {α : Type} (port : Port) (address length : Int) (d d' : Dev)
+    (f : Bytes → R α) (a : α) (h : withRead port address length d f = (.ok a, d')) :
+    f (d.mem.readRange address (asUsize length)) = .ok a ∧
+    OneAccess d d' ⟨.read, address, asUsize length, d.mem.readRange address (asUsize length)⟩ d.mem := by
+  rcases withRead_cases port address length d f with ⟨he, _⟩ | ⟨he, _⟩ | ⟨he, _⟩ | ⟨he, _⟩ <;>
+    rw [he] at h
+  · cases h
+  · cases h
+  · cases h
+  · injection h with h1 h2
+    subst h2
+    exact ⟨h1, rfl, rfl, rfl, rfl⟩
+
+/-- **footprint (StringReg.set_value)**: whatever the outcome, either success with exactly
+one write of the NUL-padded image at `[address, address+n)`, or memory and log untouched. -/
+theorem str_set_footprint (port : Port) (address : Int) (n : Nat) (hlt : n < 2 ^ 63) (value : Bytes)
+    (d d' : Dev) (r : R Unit) (h : StringReg.setValue port address n value d = (r, d')) :
+    (r = .ok () ∧ Representable n value ∧
+      OneAccess d d' ⟨.write, address, n, strImage n value⟩ (d.mem.writeRange address (strImage n value))) ∨
+    (r ≠ .ok () ∧ Untouched d d') := by
+  by_cases hrep : Representable n value
+  · have hlen : (strImage n value).length = n := by
+      have := hrep.2; simp [strImage]; omega
+    have hle : ¬ value.length > n := by have := hrep.2; omega
+    unfold StringReg.setValue at h
+    simp only [isAscii_of_rep hrep, containsNul_of_rep hrep, asUsize_nat n hlt, allocLen, if_pos hlt,
+      not_true_eq_false, if_false, Bool.false_eq_true, hle] at h
+    change writeAndCache port address n (strImage n value) d = _ at h
+    rcases raw_write_footprint port address n (strImage n value) d d' r h with ⟨h1, _, h3⟩ | h2
+    · left; rw [hlen] at h3; exact ⟨h1, hrep, h3⟩
+    · right; exact h2
+  · rw [str_refused port address n hlt value d hrep] at h
+    injection h with h1 h2; subst h1; subst h2
+    right; exact ⟨by simp, rfl, rfl⟩
+
+/-- **float_reg_roundtrip**: on a plain port and an answering device, writing a float to an
+8-byte (resp. 4-byte) register and reading it back returns the value whenever the bit
+pattern reinterpretation (resp. narrowing then widening) is lossless for it; one write and
+one read of `[address, address+n)`, nothing else touched. -/
+theorem float_reg_roundtrip {F : Type} [FloatOps F] (port : Port) (hp : port.hasChunkId = false)
+    (e : Endianness) (address : Int) (n : Nat) (x : F)
+    (hn : (n = 8 ∧ FloatOps.ofBits (FloatOps.toBits x) = x) ∨
+          (n = 4 ∧ FloatOps.widenBits32 (FloatOps.narrowBits32 x) = x))
+    (d : Dev) (hd : d.Reliable) :
+    ∃ img d1 d2, bytesFromFloat x n e = .ok img ∧ img.length = n ∧
+      FloatReg.setValue port e address n x d = (.ok (), d1) ∧
+      FloatReg.value port e address n d1 = (.ok x, d2) ∧
+      d2.log = d.log ++ [⟨.write, address, n, img⟩, ⟨.read, address, n, img⟩] ∧
+      (∀ y, y < address ∨ address + (n : Int) ≤ y → d2.mem y = d.mem y) := by
+  have hlt : n < 2 ^ 63 := by rcases hn with ⟨rfl, _⟩ | ⟨rfl, _⟩ <;> decide
+  obtain ⟨img, himg, hlen, hback⟩ : ∃ img, bytesFromFloat x n e = .ok img ∧ img.length = n ∧
+      floatFromSlice (F := F) img e = .ok x := by
+    rcases hn with ⟨rfl, law⟩ | ⟨rfl, law⟩
+    · exact float_roundtrip8 x e law
+    · exact float_roundtrip4 x e law
+  have hmem : (afterWrite d address img).mem.readRange address n = img := by
+    have := readRange_writeRange d.mem address img
+    rw [hlen] at this; exact this
+  refine ⟨img, afterWrite d address img, afterRead (afterWrite d address img) address n,
+    himg, hlen, ?_, ?_, ?_, ?_⟩
+  · simp only [FloatReg.setValue, allocLen, asUsize_nat n hlt, if_pos hlt, himg]
+    rcases writeAndCache_cases port address n img d with
+      ⟨h, _⟩ | ⟨_, h, _⟩ | ⟨_, _, h, _⟩ | ⟨_, _, _, h⟩
+    · rw [hlen, asUsize_nat n hlt] at h; exact absurd rfl h
+    · rw [hp] at h; cases h
+    · rw [hd] at h; cases h
+    · exact h
+  · unfold FloatReg.value
+    rcases withRead_cases port address n (afterWrite d address img)
+      (fun data => floatFromSlice (F := F) data e) with ⟨_, h⟩ | ⟨_, h⟩ | ⟨_, h⟩ | ⟨h, _⟩
+    · rw [asUsize_nat n hlt] at h; exact absurd hlt h
+    · rw [hp] at h; cases h
+    · have := hd (afterWrite d address img).attempts
+      simp only [afterWrite] at h this; rw [this] at h; cases h
+    · rw [h, asUsize_nat n hlt, hmem, hback]
+  · simp only [afterRead, hmem]
+    simp [afterWrite, hlen]
+  · intro y hy
+    simp only [afterRead, afterWrite]
+    exact writeRange_outside d.mem address _ y (by rw [hlen]; exact hy)
+
 end CamVerif.C01
